@@ -10,10 +10,16 @@ import itertools
 
 def observed_copies(coverage, cn_solution, m):
     """Observed copy number of a variant / reference site, as the statement defines it:
-    reads supporting it divided by the per-copy depth at that site."""
-    if coverage.single_copy(m.pos, cn_solution) == 0:
-        return 0.0
-    return coverage[m] / coverage.single_copy(m, cn_solution)
+    reads supporting it divided by the per-copy depth at that site (read directly from the tables)."""
+    from . import evidence
+
+    return evidence.observed_copies(coverage, cn_solution, m)
+
+
+def _support(coverage, m):
+    from . import evidence
+
+    return evidence.support(coverage, m)
 
 
 def enumerate_major(gene, coverage, cn_solution, allele_dict, max_combos=200000):
@@ -23,7 +29,7 @@ def enumerate_major(gene, coverage, cn_solution, allele_dict, max_combos=200000)
     prof = coverage.profile
     func_muts = sorted(
         Mutation(*m) for m in gene.mutations
-        if gene.is_functional(m) and coverage[Mutation(*m)] > 0
+        if gene.is_functional(m) and _support(coverage, Mutation(*m)) > 0
     )
     by_cfg = {}
     for an, a in allele_dict.items():
